@@ -21,9 +21,16 @@ class ImmReports(list):
     counts: dict = {}
 
 
+def env_fingerprint(env) -> str:
+    """the shared, supposedly read-only assets every state is stepped with (the reporter is an event sink, excluded)"""
+    return deep_fingerprint((env.mechatronics, env.chargers, env.schedules, env.fleet_ids, env.config))
+
+
 def imm_step(world, base_step, sim, events):
     fp0 = deep_fingerprint(sim)
+    efp0 = env_fingerprint(world.env)
     post, reports = base_step(sim, events)
+    carried = getattr(world, "_carried_controller", None)
     out = ImmReports(reports)
     out.findings = []
     out.counts = {"steps": 1, "apply_calls": 0}
@@ -35,6 +42,21 @@ def imm_step(world, base_step, sim, events):
         out.findings.append(("not_repeatable", "step", "stepping the same saved state twice with the same controller gave two different results"))
     if deep_fingerprint(sim) != fp0:
         out.findings.append(("pre_state_modified", "second_step", "the pre-state reads differently after stepping it a second time"))
+    if env_fingerprint(world.env) != efp0:
+        out.findings.append(("shared_assets_modified", "step", "stepping changed the environment's shared assets (mechatronics / chargers / schedules / config): later steps of ANY saved state depend on it"))
+    if not getattr(world, "_replaying", False) and carried is not None:
+        # the controller handed back by the step (what a runner carries forward): stepping the saved successor twice with it
+        # must give the same result both times
+        try:
+            world.env.reporter.take()
+            a1, _ = carried.update(post, world.env)
+            a2, _ = carried.update(post, world.env)
+            world.env.reporter.take()
+            out.counts["carried_controller_steps"] = 2
+            if digest(canon_sim_full(a1)) != digest(canon_sim_full(a2)):
+                out.findings.append(("not_repeatable", "carried_controller", "stepping the same saved state twice with the controller returned by the previous step gave two different results"))
+        except Exception as e:
+            out.findings.append(("not_repeatable", "carried_controller_exception", f"re-using the controller returned by the previous step raised {type(e).__name__}: {e}"))
     if not getattr(world, "_replaying", False):
         fp1 = deep_fingerprint(post)
         for ev in world.controller_menu:
